@@ -981,6 +981,19 @@ class GenericSet:
         raise EngineError("comprehension over a generic set")
 
 
+class BroadcastList:
+    """[x] * n for a symbolic n: every element is x"""
+
+    def __init__(self, x, n):
+        self.x, self.n = x, n
+
+    def sym_getitem(self, it, key):
+        return self.x
+
+    def sym_len(self, it):
+        return self.n
+
+
 class ZipArr:
     """zip(col1, col2, ...) of aligned columns: generic row is the tuple of the elements"""
 
